@@ -8,7 +8,7 @@ COMMON_ASSUME = [
 SOURCE_COMMITS = []
 
 PENDING = "check not built yet in this round (machinery under construction; see DESIGN.md section 4 for the planned generator and oracle)"
-NOT_APPLICABLE = {p: PENDING for p in ["C01","C02","C03","C04","C05","C06","C08","C09","C10","C11","C12","C13","C14","C15","C16","C17","C18","C19"]}
+NOT_APPLICABLE = {p: PENDING for p in ["C01","C02","C03","C04","C05","C06","C11","C12","C13","C14","C15","C16","C17","C18","C19"]}
 
 PROPS = {
     "C07": dict(
@@ -19,5 +19,32 @@ PROPS = {
         level_text="Exploration: both directions of the text/binary partition are decided for every byte value at every position of 35 templates under five limit placements (about 1.9M detections, complete for that scope) and for generated inputs beyond it. This is the right level because the property is a partition of the input space by a byte-class predicate: small-scope exhaustiveness over byte value x position x limit placement covers every way a single byte can flip the verdict; absence beyond the scope is not established.",
         level_note="Trusted: the oracle's transcription of the WHATWG binary-data-byte table and BOM list; Go runtime. The harness builds in a staged copy of the working tree.",
         assumptions=COMMON_ASSUME + ["oracle: WHATWG binary-data-byte table and the five BOMs, written independently of magic.Text"],
+    ),
+    "C08": dict(
+        shards=dict(quick=4, thorough=16),
+        floor=dict(quick=500, thorough=5000),
+        technique="grammar-based generation of valid RFC 8259 documents (rapid), every cut point checked against the construction oracle 'valid JSON must be recognised'",
+        level_text="Exploration: generated valid documents (all token spellings, whitespace layouts, strings containing structural characters and escapes, nesting chains of depth 4088..4096) are each examined at every limit from just after the opening bracket to beyond the end, directly through magic.JSON and through Detect. Completeness over an unbounded grammar can only be sampled; the generator is built so that every cut class (inside string / escape / number / literal, after each structural character, limit == len) occurs thousands of times per run.",
+        level_note="Trusted: the document generator (every document is cross-checked with encoding/json.Valid), the tree-position rule used to classify higher-priority exceptions (svg, offset signatures), Go runtime.",
+        rule="gen: rapid grammar for RFC 8259 objects/arrays (depth<=6, 0-4 members per container, strings assembled from 42 pieces incl. , : { } [ ] escapes \\uXXXX and multi-byte UTF-8; 16 number spellings; JSON whitespace between any two tokens); each document is checked at limit 0 and at EVERY limit from index-of-opening-bracket+1 to len+2 (evaluations counts (document, limit) pairs). deep: nesting chains of depth 4088..4096 in three shapes, boundary and strided cuts. Non-trivial document = has at least one cut strictly inside a string/number/literal token or directly after a structural character; distinct by hash(document). Label counts give the number of cuts per class.",
+        assumptions=COMMON_ASSUME + ["higher-priority exception = a root child before text/plain, or a text/plain child before json, accepts the same header (decided by calling those detectors); counted in labels"],
+    ),
+    "C09": dict(
+        shards=dict(quick=4, thorough=16),
+        floor=dict(quick=100000, thorough=1000000),
+        technique="exhaustive enumeration of all strings over a 16-symbol JSON alphabet (bounded length) plus rapid mutation of valid documents, against an independent pushdown recogniser for the relaxed grammar",
+        level_text="Exploration, exhaustive in a small scope: every string over the alphabet [ ] { } \" : , SP \\ n u l 1 - . e up to length 6 (17.9M strings; length 8 for strings opening with a bracket in the thorough tier) is judged in whole and truncated mode against a reference recogniser R written from the property text; beyond that scope, one- and two-byte mutations of generated valid documents. Soundness over all strings outside a language is a for-all claim; the small-scope hypothesis fits because every parser decision (separator, closer, failed inner value) is reachable within 6-8 symbols.",
+        level_note="Trusted: the reference recogniser R (deliberately a superset of anything the property tolerates: liberal numbers, raw bytes in strings, one trailing comma, no depth limit, no UTF-8 validation), Go runtime.",
+        rule="enum: all strings over the 16-symbol alphabet up to length 6 (quick) / additionally length 7-8 opening with ws*[[{] (thorough), each in whole mode (limit 0) and truncated mode (limit=len); non-trivial = first non-space byte is [ or { so the parser is entered; distinct by construction (each string/mode pair enumerated once). mut: rapid: valid document + 1-2 byte-level mutations (delete/insert/replace/duplicate/swap/drop-closer/splice) at limits {0,len,len+1,random cut}; distinct by hash(header,limit).",
+        assumptions=COMMON_ASSUME + ["R accepts a superset of what the property tolerates, so a verdict 'not in R' is always a real malformation"],
+    ),
+    "C10": dict(
+        shards=dict(quick=4, thorough=16),
+        floor=dict(quick=5000, thorough=50000),
+        technique="construction-based generation (rapid): JSON objects assembled from deciding members, look-alikes and arbitrary siblings with recorded spans; expected sub-type computed from the construction",
+        level_text="Exploration: the generator builds top-level objects with 0-6 members in random order (deciding geo/har/gltf members, 33 look-alikes at wrong depth / wrong value / wrong container, arbitrary siblings incl. non-empty arrays and nested objects re-using the key names), random whitespace layout and limits (0, len, len+1, cuts outside deciding spans) and knows by construction which sub-type must be reported, including the precedence geo > har > gltf. Order/content independence quantifies over all sibling shapes, which can only be sampled; the generator is measured to put a non-empty container before the deciding member in a large share of cases, which is the condition the path stack is sensitive to.",
+        level_note="Trusted: the generator's span bookkeeping (documents are cross-checked with encoding/json.Valid); keys and deciding values are spelled literally as the property states.",
+        rule="rapid: object of 0-6 members: deciding (\"type\":<9 names>; \"log\":{fillers,version|creator|entries:any value,fillers}; \"asset\":{fillers,\"version\":\"1.0\"|\"2.0\",fillers}), look-alikes, arbitrary siblings (depth<=3); limit in {0,len,len+1, random cut snapped out of deciding spans}. Expected = geo if a geo span ends <= L, else har, else gltf, else application/json; String() and Extension() compared. Non-trivial = deciding member preceded by a non-empty container sibling, or >=2 deciding kinds, or a look-alike present, or a sibling with a non-empty container; distinct by hash(doc,limit).",
+        assumptions=COMMON_ASSUME + ["cuts strictly inside a deciding member are outside the property's domain and are counted as excluded"],
     ),
 }
